@@ -10,3 +10,4 @@ CONSTANTS
   MaxEvents = 0
   Dev <- Known
   Pairs2 = TRUE
+  NoDef <- NoDef0
